@@ -132,6 +132,26 @@ Proof.
   rewrite cleaned_firstn, cleaned_skipn, Hv by assumption. reflexivity.
 Qed.
 
+
+Lemma forallb_firstn' {A} (p : A -> bool) : forall n l, forallb p l = true -> forallb p (firstn n l) = true.
+Proof.
+  induction n as [|n IH]; intros l H; [reflexivity|]. destruct l as [|x l]; [reflexivity|].
+  cbn [firstn forallb] in *. apply andb_true_iff in H as [H1 H2]. rewrite H1. exact (IH l H2).
+Qed.
+Lemma forallb_skipn' {A} (p : A -> bool) : forall n l, forallb p l = true -> forallb p (skipn n l) = true.
+Proof.
+  induction n as [|n IH]; intros l H; [exact H|]. destruct l as [|x l]; [reflexivity|].
+  cbn [skipn forallb] in *. apply andb_true_iff in H as [_ H2]. exact (IH l H2).
+Qed.
+
+Lemma place_pred (P : N -> bool) p v acc :
+  (0 <= fst p <= snd p)%Z -> (snd p <= len acc)%Z ->
+  forallb P v = true -> forallb P acc = true -> forallb P (place p v acc) = true.
+Proof.
+  intros H1 H2 Hv Ha. rewrite place_pl by assumption. unfold pl. rewrite !forallb_app.
+  rewrite forallb_firstn', forallb_skipn', Hv by assumption. reflexivity.
+Qed.
+
 (* ---- the whole sequence of placements ------------------------------------------------------------------ *)
 Section Fold.
 Variable e : env.
@@ -183,6 +203,28 @@ Proof.
   cbn [fold_left]. apply IH; try (intros; first [apply Hok|apply Hcl]; right; assumption).
   - apply step_len; [apply Hok; left; reflexivity|exact Ha].
   - apply step_cleaned; try assumption; [apply Hok|apply Hcl]; left; reflexivity.
+Qed.
+
+
+Lemma step_pred (P : N -> bool) acc kv :
+  item_ok kv -> len acc = L -> (range_is_empty (rng (fst kv)) = true \/ forallb P (snd kv) = true) ->
+  forallb P acc = true -> forallb P (step acc kv) = true.
+Proof.
+  intros [He|[Hr Hl]] Ha Hv Hc; unfold step, fc_step; fold rng.
+  - rewrite He. exact Hc.
+  - destruct (range_is_empty _) eqn:Ee; [exact Hc|]. apply range_in_spec in Hr as [H1 H2].
+    destruct Hv as [Hv|Hv]; [discriminate|]. apply place_pred; try assumption; lia.
+Qed.
+
+Lemma fold_pred (P : N -> bool) items : forall acc,
+  (forall kv, In kv items -> item_ok kv) ->
+  (forall kv, In kv items -> range_is_empty (rng (fst kv)) = true \/ forallb P (snd kv) = true) ->
+  len acc = L -> forallb P acc = true -> forallb P (fold_left step items acc) = true.
+Proof.
+  induction items as [|kv items IH]; intros acc Hok Hcl Ha Hc; [exact Hc|].
+  cbn [fold_left]. apply IH; try (intros; first [apply Hok|apply Hcl]; right; assumption).
+  - apply step_len; [apply Hok; left; reflexivity|exact Ha].
+  - apply step_pred; try assumption; [apply Hok|apply Hcl]; left; reflexivity.
 Qed.
 
 Lemma step_other acc kv q :
@@ -287,6 +329,9 @@ Proof.
   - unfold len in *. destruct (N.eqb c cplus || N.eqb c cminus); cbn [List.length]; rewrite ?app_length, zeros_length;
       cbn [List.length] in *; lia.
 Qed.
+
+Lemma zeros_pred (P : N -> bool) n : P c0 = true -> forallb P (zeros n) = true.
+Proof. intro H. unfold zeros. induction n as [|n IH]; [reflexivity|]. cbn [repeat forallb]. rewrite H. exact IH. Qed.
 
 Lemma zeros_cleaned e n : clean_char e c0 = true -> cleaned e (zeros n) = true.
 Proof. intro H. unfold cleaned, zeros. induction n as [|n IH]; [reflexivity|]. cbn [repeat forallb]. rewrite H. exact IH. Qed.
@@ -534,14 +579,18 @@ Proof using All.
   - apply get_val_set_other. exact E.
 Qed.
 
-Theorem fc_result b :
+Theorem fc_result_ext b :
   from_components e components T find_algo cc values = Ok b ->
   (forall K, compute_national find_algo cc comps1 = Ok K -> shape_ok K) ->
   exists K, compute_national find_algo cc comps1 = Ok K /\
     len b = L /\ cleaned e b = true /\
     (forall k, In k components -> len (V1 k) = wd k) /\
-    forall k, In k components -> range_is_empty (rng k) = false ->
-      get_slice b (fst (rng k)) (Some (snd (rng k))) = V2 K k /\ len (V2 K k) = wd k.
+    (forall k, In k components -> range_is_empty (rng k) = false ->
+      get_slice b (fst (rng k)) (Some (snd (rng k))) = V2 K k /\ len (V2 K k) = wd k) /\
+    (* any character predicate that holds of "0" and of every placed value holds of the result *)
+    (forall P : N -> bool, P c0 = true ->
+       (forall k, In k components -> range_is_empty (rng k) = false -> forallb P (V2 K k) = true) ->
+       forallb P b = true).
 Proof using All.
   intros H HK. unfold from_components, get_spec in H. rewrite Er in H. cbn [bind] in H.
   destruct (r_positions r) as [ps|] eqn:Eps; [|discriminate]. cbv zeta in H.
@@ -581,13 +630,30 @@ Proof using All.
   assert (Hpre_cl : cleaned e (fc_place components r items) = true)
     by (apply (fold_cleaned e components r items _ Hok Hcl Hz); apply zeros_cleaned; exact ZERO).
   rewrite (cleaned_fix e _ Hpre_cl) in H. inversion H; subst b. clear H.
-  split; [exact Hpre_len|]. split; [exact Hpre_cl|]. split; [intros k Hk; apply HV; exact Hk|].
-  intros k Hk Hne. destruct (HV2 k Hk) as [He|[Hl _]]; [fold rng in He; congruence|]. split; [|exact Hl].
-  apply (fold_get components r items); try assumption.
-  - rewrite Hkeys. exact Hpair.
-  - (* (k, V2 K k) is an item *)
-    rewrite <- Hkeys in Hk. apply in_map_iff in Hk as ([k' v] & Ek & Hin). cbn [fst] in Ek. subst k'.
-    destruct (Hitem _ Hin) as [_ Hv]. cbn [fst snd] in Hv. rewrite <- Hv. exact Hin.
+  split; [exact Hpre_len|]. split; [exact Hpre_cl|]. split; [intros k Hk; apply HV; exact Hk|]. split.
+  - intros k Hk Hne. destruct (HV2 k Hk) as [He|[Hl _]]; [fold rng in He; congruence|]. split; [|exact Hl].
+    apply (fold_get components r items); try assumption.
+    + rewrite Hkeys. exact Hpair.
+    + (* (k, V2 K k) is an item *)
+      rewrite <- Hkeys in Hk. apply in_map_iff in Hk as ([k' v] & Ek & Hin). cbn [fst] in Ek. subst k'.
+      destruct (Hitem _ Hin) as [_ Hv]. cbn [fst snd] in Hv. rewrite <- Hv. exact Hin.
+  - intros P P0 HP. apply (fold_pred components r P items _ Hok); [|exact Hz|].
+    + intros kv Hin. destruct (Hitem kv Hin) as [Hc Hv]. destruct (range_is_empty (rng (fst kv))) eqn:Ee; [left; exact Ee|right].
+      rewrite Hv. exact (HP _ Hc Ee).
+    + apply zeros_pred. exact P0.
+Qed.
+
+Theorem fc_result b :
+  from_components e components T find_algo cc values = Ok b ->
+  (forall K, compute_national find_algo cc comps1 = Ok K -> shape_ok K) ->
+  exists K, compute_national find_algo cc comps1 = Ok K /\
+    len b = L /\ cleaned e b = true /\
+    (forall k, In k components -> len (V1 k) = wd k) /\
+    forall k, In k components -> range_is_empty (rng k) = false ->
+      get_slice b (fst (rng k)) (Some (snd (rng k))) = V2 K k /\ len (V2 K k) = wd k.
+Proof using All.
+  intros H HK. destruct (fc_result_ext b H HK) as (K & A1 & A2 & A3 & A4 & A5 & _).
+  exists K. split; [exact A1|]. split; [exact A2|]. split; [exact A3|]. split; [exact A4|exact A5].
 Qed.
 
 (* a value supplied under one of the three code names sits, cleaned and zero-padded to the field width, at the
@@ -699,6 +765,53 @@ Proof using All.
     destruct K; [congruence|reflexivity].
 Qed.
 
+(* ---- what the structure check leaves: every component value is of its positions' classes, or all zeros ----------- *)
+Definition checked_key (k : text) : bool :=
+  text_eqb k k_bank || text_eqb k k_branch || text_eqb k k_account || nonempty_text (get_val k values).
+
+Lemma fc_check_ok : forall l, fc_check components r values l = Ok tt ->
+  forall k v, In (k, v) l -> checked_key k = true -> matches_structure r (rng k) v = Ok true.
+Proof using All.
+  induction l as [|[k0 v0] l IH]; intros H k v Hin Hck; [destruct Hin|].
+  cbn [fc_check] in H. fold (checked_key k0) in H. fold rng in H.
+  destruct Hin as [Heq|Hin].
+  - inversion Heq; subst k0 v0. rewrite Hck in H.
+    destruct (matches_structure r (rng k) v) as [[|]|x|x]; cbn [bind] in H; try discriminate. reflexivity.
+  - apply (IH); [|exact Hin|exact Hck].
+    destruct (if checked_key k0 then matches_structure r (rng k0) v0 else Ok true) as [[|]|x|x]; cbn [bind] in H; try discriminate.
+    exact H.
+Qed.
+
+Lemma zfill_empty w : (0 <= w)%Z -> zfill [] w = zeros (Z.to_nat w).
+Proof.
+  intro H. unfold zfill. change (len []) with 0%Z. destruct (Z.leb_spec w 0).
+  - replace w with 0%Z by lia. reflexivity.
+  - rewrite Z.sub_0_r. reflexivity.
+Qed.
+
+Theorem V1_conf :
+  (len (V1 k_bank) <= wd k_bank)%Z -> (len (V1 k_branch) <= wd k_branch)%Z -> (len (V1 k_account) <= wd k_account)%Z ->
+  fc_check components r values comps1 = Ok tt ->
+  forall k, In k components ->
+    matches_structure r (rng k) (V1 k) = Ok true \/ V1 k = zeros (Z.to_nat (wd k)).
+Proof using All.
+  intros GB GR GA Hchk k Hk.
+  destruct lay_facts as (_ & _ & _ & Hnodup & Hb & Hbr & Hac & _).
+  assert (Hin : In (k, V1 k) comps1).
+  { pose proof comps1_keys as Hkeys. rewrite <- Hkeys in Hk. apply in_map_iff in Hk as ([k' v] & Ek & Hin). cbn [fst] in Ek. subst k'.
+    assert (Ev : V1 k = v) by (unfold V1; apply in_get_val; [rewrite Hkeys; exact Hnodup|exact Hin]).
+    rewrite Ev. exact Hin. }
+  destruct (checked_key k) eqn:Eck; [left; exact (fc_check_ok comps1 Hchk k (V1 k) Hin Eck)|right].
+  unfold checked_key in Eck. repeat (apply orb_false_iff in Eck as [Eck ?]).
+  assert (Hempty : get_val k values = []) by (destruct (get_val k values); [reflexivity|discriminate]).
+  assert (Hk' : In k components) by (rewrite <- comps1_keys; apply (in_map fst _ _ Hin)).
+  assert (EV : V1 k = G k).
+  { destruct (fc_split components r comps0) eqn:Hs.
+    - rewrite (V1_split k Hs Hk'). rewrite Eck. match goal with X : text_eqb k k_branch = false |- _ => rewrite X end. reflexivity.
+    - apply (V1_nosplit k Hs Hk'). }
+  rewrite EV. unfold G. rewrite Hempty. change (clean e []) with (@nil N). apply zfill_empty. apply wd_nonneg. exact Hk'.
+Qed.
+
 (* ---- the error class of an over-long component ------------------------------------------------------------- *)
 Ltac fc_open ps Hps :=
   unfold from_components, get_spec; rewrite Er; cbn [bind]; rewrite Hps; cbv zeta;
@@ -791,6 +904,26 @@ Proof using All.
   destruct (fc_check _ _ _ _) as [[]|x|x]; [|reflexivity|discriminate]. cbn [bind].
   specialize (Hc (fc_comps1 components r (fc_comps0 e components r values))).
   destruct (compute_national _ _ _) as [K|x|x]; [reflexivity|reflexivity|discriminate].
+Qed.
+
+Theorem fc_no_crash_if items :
+  parse_structure (r_bban_spec r) = Some items ->
+  ((len (V1 k_bank) <= wd k_bank)%Z -> (len (V1 k_branch) <= wd k_branch)%Z -> (len (V1 k_account) <= wd k_account)%Z ->
+   fc_check components r values comps1 = Ok tt -> is_crash (compute_national find_algo cc comps1) = false) ->
+  is_crash (from_components e components T find_algo cc values) = false.
+Proof using All.
+  intros Hp Hc. unfold from_components, get_spec. rewrite Er. cbn [bind].
+  destruct (r_positions r); [|reflexivity]. cbv zeta.
+  change (fc_comps0 e components r values) with comps0. change (fc_comps1 components r comps0) with comps1.
+  destruct (fc_split components r comps0 && nonempty_text (get_val k_branch values)); [reflexivity|].
+  fold rng. fold (wd k_bank) (wd k_branch) (wd k_account). fold (V1 k_bank) (V1 k_branch) (V1 k_account).
+  destruct (Z.ltb_spec (wd k_bank) (len (V1 k_bank))) as [|GB]; [reflexivity|].
+  destruct (Z.ltb_spec (wd k_branch) (len (V1 k_branch))) as [|GR]; [reflexivity|].
+  destruct (Z.ltb_spec (wd k_account) (len (V1 k_account))) as [|GA]; [reflexivity|].
+  pose proof (fc_check_no_crash items comps1 Hp) as H1.
+  destruct (fc_check components r values comps1) as [[]|x|x] eqn:Echk; [|reflexivity|discriminate]. cbn [bind].
+  specialize (Hc GB GR GA eq_refl).
+  destruct (compute_national find_algo cc comps1) as [K|x|x]; [reflexivity|reflexivity|discriminate].
 Qed.
 End FromComponents.
 
